@@ -761,4 +761,60 @@ theorem p2sh_multisig_committed_edit_rejects (m : Nat) (keys sigs : List Bytes)
 
 end edits
 
+/-! ### non-vacuity of Parts 2 and 3 -/
+
+section examples
+open BtcVerif.Model.ScriptEval BtcVerif.Spec.Script BtcVerif.Spec.Templates BtcVerif.C05T
+
+/-- a toy oracle: "signature j was made by key j" is read off the second byte -/
+def exEnv : Env :=
+  { hashes := { sha1 := fun _ => [], ripemd160 := fun _ => List.replicate 20 7, sha256 := fun x => x }
+    sigCheck := fun body key _ _ => body[1]? == key[1]? }
+def exCtx : Ctx := { env := exEnv, inIdx := 1, nVin := 3, nVout := 3 }
+def exKey (j : UInt8) : Bytes := 2 :: List.replicate 32 j
+def exBody (j : UInt8) : Bytes := 0x30 :: j :: List.replicate 68 0
+def exFlags : Flags := { p2sh := true, nullDummy := true, cleanStack := true, discourageNops := false }
+
+example : verifyScript exCtx exFlags (p2pkScriptSig (exBody 5 ++ [0x83])) (p2pkScript (exKey 5)) = .ok () :=
+  template_accepts_p2pk exCtx exFlags (exBody 5) 0x83 (exKey 5) (by decide) (by decide) (by decide) (by decide)
+    (by decide) (by decide)
+
+example : verifyScript exCtx exFlags (p2pkScriptSig (exBody 6 ++ [0x83])) (p2pkScript (exKey 5)) = .error .verify :=
+  template_rejects_wrong_key_p2pk exCtx exFlags (exBody 6) 0x83 (exKey 5) (by decide) (by decide) (by decide)
+    (by decide) (by decide) (by decide)
+
+example : verifyScript exCtx exFlags (p2pkhScriptSig (exBody 5 ++ [1]) (exKey 5))
+    (p2pkhScript (exEnv.hashes.hash160 (exKey 5))) = .ok () :=
+  template_accepts_p2pkh exCtx exFlags (exBody 5) 1 (exKey 5) (by decide) (by decide) (by decide) (by decide)
+    (by decide) (by decide) (by decide)
+
+/-- 2-of-3 with the signatures of keys 1 and 3, in key order: accepted … -/
+example : verifyScript exCtx exFlags (multisigScriptSig [exBody 1 ++ [1], exBody 3 ++ [2]])
+    (multisigScript 2 [exKey 1, exKey 2, exKey 3]) = .ok () :=
+  template_accepts_multisig exCtx exFlags 2 [exKey 1, exKey 2, exKey 3] [exBody 1 ++ [1], exBody 3 ++ [2]]
+    (by decide) (by decide) (by decide) (by decide) (by decide) (by decide) (by decide) (by decide) (by decide)
+    (by decide) (.take (by decide) (.skip (.take (by decide) (.nil _))))
+
+/-- … out of key order, or the same signature twice: rejected -/
+example : verifyScript exCtx exFlags (multisigScriptSig [exBody 3 ++ [1], exBody 1 ++ [1]])
+    (multisigScript 2 [exKey 1, exKey 2, exKey 3]) = .error .verify :=
+  template_rejects_wrong_key_multisig exCtx exFlags 2 [exKey 1, exKey 2, exKey 3] [exBody 3 ++ [1], exBody 1 ++ [1]]
+    (by decide) (by decide) (by decide) (by decide) (by decide) (by decide) (by decide) (by decide) (by decide)
+    (by decide) (by rw [← matching_iff_greedy_reverse]; decide)
+
+example : verifyScript exCtx exFlags (multisigScriptSig [exBody 1 ++ [1], exBody 1 ++ [1]])
+    (multisigScript 2 [exKey 1, exKey 2, exKey 3]) = .error .verify :=
+  template_rejects_wrong_key_multisig exCtx exFlags 2 [exKey 1, exKey 2, exKey 3] [exBody 1 ++ [1], exBody 1 ++ [1]]
+    (by decide) (by decide) (by decide) (by decide) (by decide) (by decide) (by decide) (by decide) (by decide)
+    (by decide) (by rw [← matching_iff_greedy_reverse]; decide)
+
+/-- the hypotheses of the edit theorems are met: under SINGLE|ANYONECANPAY, signing input 1 of `exTx`,
+    changing output 0 is uncommitted, changing output 1 is committed and changes a committed part -/
+example : Uncommitted (0x83 : UInt8).toNat 1 (.setValue 0 5) = true := by decide
+example : Committed (0x83 : UInt8).toNat 1 (.setValue 1 5) = true ∧ changes (0x83 : UInt8).toNat 1 (.setValue 1 5) exTx ∧
+    Regular (0x83 : UInt8).toNat 1 exTx ∧ Regular (0x83 : UInt8).toNat 1 (apply (.setValue 1 5) exTx) :=
+  ⟨by decide, ⟨.value 1, by decide, by decide⟩, by decide, by decide⟩
+
+end examples
+
 end BtcVerif.C05
